@@ -56,7 +56,7 @@ Lemma NeighUnique_reads a : wf_aneigh a -> reads deser_NeighUnique (ser_NeighUni
 Proof. intros H. unfold wf_aneigh in H. pose proof (reads_ANeigh a) as R. rewrite <- H in R. exact R. Qed.
 
 Definition wf_NeighBench (o : neigh_bench) : Prop :=
-  wf_aneigh (nb_base o) /\ wf_dbl (nb_bipt_width o) /\ nb_width o = d0.
+  wf_aneigh (nb_base o) /\ wf_dbl (nb_bipt_width o) /\ nb_width o = nb_bipt_width o.
 Lemma NeighBench_reads o : wf_NeighBench o -> reads deser_NeighBench (ser_NeighBench o) o.
 Proof.
   destruct o as [a w bw]. unfold wf_NeighBench. simpl. intros (Ha & Hw & ->).
@@ -73,65 +73,57 @@ Proof.
 Qed.
 
 (* ------------------------------------------------------------------ NeighMoving *)
-(* what survives: everything but (i) the ANeigh flags, (ii) _distCont, (iii) an anisotropy whose radius is neither 1 nor
-   undefined (the coefficients come back multiplied by the radius), (iv) any rotation. *)
+(* what survives: everything but the ANeigh flags and _distCont.  Isotropic, anisotropic and rotated search ellipsoids. *)
 Definition wf_NeighMoving (o : neigh_moving) : Prop :=
   wf_aneigh (nm_base o) /\ nm_distcont o = None /\ wf_dbl (nm_radius o) /\ Forall wf_dbl (nm_coeffs o)
   /\ nm_nsect o = (if flag_sector (an_ndim (nm_base o)) (nm_nsect o) then Z.max (nm_nsect o) 1 else 1)
-  /\ nm_rot o = false /\ nm_rotmat o = idmat (length (nm_coeffs o))
   /\ (if nm_aniso o
-      then lenZ (nm_coeffs o) = an_ndim (nm_base o) /\ nm_coeffs o <> [] /\ (nm_radius o = None \/ nm_radius o = d1)
-      else nm_coeffs o = [d1; d1]).
-
-Lemma dmul_d1 ds : Forall wf_dbl ds -> map (dmul d1) ds = ds.
-Proof.
-  induction 1 as [|d ds Hd _ IH]; cbn [map]; auto. f_equal; auto.
-  destruct d as [q|]; [|reflexivity]. destruct Hd as [Hq _]. unfold dmul, d1. f_equal.
-  unfold wfQ in Hq. rewrite <- Hq at 2. apply Qred_complete. ring.
-Qed.
+      then lenZ (nm_coeffs o) = an_ndim (nm_base o) /\ nm_coeffs o <> [] /\
+           (if nm_rot o
+            then lenZ (nm_rotmat o) = an_ndim (nm_base o) * an_ndim (nm_base o) /\ Forall wf_dbl (nm_rotmat o) /\ nm_rotmat o <> []
+            else nm_rotmat o = idmat (length (nm_coeffs o)))
+      else nm_coeffs o = [d1; d1] /\ nm_rot o = false /\ nm_rotmat o = idmat 2).
 
 Lemma NeighMoving_reads o : wf_NeighMoving o -> reads deser_NeighMoving (ser_NeighMoving o) o.
 Proof.
   destruct o as [a nmini nmaxi nsect nsmax dc radius aniso rot coeffs rotmat].
-  unfold wf_NeighMoving. simpl. intros (Ha & -> & Hr & Hc & Hns & -> & -> & Han).
+  unfold wf_NeighMoving. simpl. intros (Ha & -> & Hr & Hc & Hns & Han).
   unfold deser_NeighMoving, ser_NeighMoving.
   cbn [nm_base nm_nmini nm_nmaxi nm_nsect nm_nsmax nm_distcont nm_radius nm_aniso nm_rot nm_coeffs nm_rotmat].
   eapply reads_bind; [apply reads_ANeigh|]. cbn [an_ndim aneigh_default app]. rd.
   rewrite b2z_z2b. destruct aniso.
-  - destruct Han as (Hlen & Hne & Hrad).
-    rewrite <- (app_nil_r (map _ coeffs ++ _)). eapply reads_bind.
-    { eapply reads_bind; [apply reads_dbl_list; eauto|]. cbn [app b2z]. rd. cbn [z2b Z.eqb negb]. rd. reflexivity. }
+  - destruct Han as (Hlen & Hne & Hrot).
     assert (Hn : null coeffs = false) by (destruct coeffs; simpl; congruence).
-    assert (Hcs : (if negb (null coeffs) && negb (is_na radius) then map (dmul radius) coeffs else coeffs) = coeffs).
-    { destruct Hrad as [-> | ->]; cbn [is_na negb]; rewrite ?andb_false_r; auto. rewrite Hn. cbn [negb andb].
-      apply dmul_d1; auto. }
-    cbv beta iota zeta. rewrite Hcs, Hn. cbn [null]. apply reads_ret_eq. rewrite <- Hns, <- Ha. reflexivity.
-  - subst coeffs. rd. cbn. rewrite <- Hns, <- Ha. apply reads_ret_eq. reflexivity.
+    destruct rot.
+    + destruct Hrot as (Hrl & Hrw & Hrne).
+      rewrite <- (app_nil_r (map _ coeffs ++ _)). eapply reads_bind.
+      { eapply reads_bind; [apply reads_dbl_list; eauto|]. cbn [app b2z]. rd. cbn [z2b Z.eqb negb].
+        rewrite <- (app_nil_r (map _ rotmat ++ _)). eapply reads_bind.
+        { apply reads_com_r. apply reads_dbl_list; auto. }
+        apply reads_ret. }
+      cbv beta iota zeta. rewrite Hn. cbn [null].
+      assert (Hm : null rotmat = false) by (destruct rotmat; simpl; congruence). rewrite Hm.
+      apply reads_ret_eq. rewrite <- Hns, <- Ha. reflexivity.
+    + subst rotmat.
+      rewrite <- (app_nil_r (map _ coeffs ++ _)). eapply reads_bind.
+      { eapply reads_bind; [apply reads_dbl_list; eauto|]. cbn [app b2z]. rd. cbn [z2b Z.eqb negb]. rd. reflexivity. }
+      cbv beta iota zeta. rewrite Hn. cbn [null]. apply reads_ret_eq. rewrite <- Hns, <- Ha. reflexivity.
+  - destruct Han as (-> & -> & ->). rd. cbn. rewrite <- Hns, <- Ha. apply reads_ret_eq. reflexivity.
 Qed.
 
-(* the reload of an anisotropic neighbourhood multiplies the coefficients by the radius ... *)
+(* regression witnesses of the former defects (coefficients multiplied by the radius, rotation flag lost): they now
+   come back unchanged *)
 Definition nm_witness_scaling : neigh_moving :=
   {| nm_base := aneigh_default 2; nm_nmini := 1; nm_nmaxi := 10; nm_nsect := 1; nm_nsmax := 0; nm_distcont := None;
      nm_radius := Some 20%Q; nm_aniso := true; nm_rot := false;
      nm_coeffs := [Some 1%Q; Some (1#2)%Q]; nm_rotmat := idmat 2 |}.
-(* ... and forgets the rotation flag (the matrix is kept): create(false,10,20.,1,1,0,{1,.5},{30,0}), cos/sin to 15 digits *)
+(* create(false,10,20.,1,1,0,{1,.5},{30,0}), cos/sin to 15 digits *)
 Definition nm_witness_rotation : neigh_moving :=
   {| nm_base := aneigh_default 2; nm_nmini := 1; nm_nmaxi := 10; nm_nsect := 1; nm_nsmax := 0; nm_distcont := None;
-     nm_radius := Some 1%Q; nm_aniso := true; nm_rot := true;
+     nm_radius := Some 20%Q; nm_aniso := true; nm_rot := true;
      nm_coeffs := [Some 1%Q; Some (1#2)%Q];
      nm_rotmat := [Some (866025403784439 # 1000000000000000)%Q; Some (1#2)%Q;
                    Some (-1#2)%Q; Some (866025403784439 # 1000000000000000)%Q] |}.
-
-Definition reload_NeighMoving (o : neigh_moving) : option neigh_moving :=
-  nf_read "NeighMoving" deser_NeighMoving (lex (print (nf_write "NeighMoving" (ser_NeighMoving o)))).
-
-Lemma NeighMoving_scaling_witness :
-  option_map nm_coeffs (reload_NeighMoving nm_witness_scaling) = Some [Some 20%Q; Some 10%Q].
-Proof. vm_compute. reflexivity. Qed.
-Lemma NeighMoving_rotation_witness :
-  option_map (fun o => (nm_rot o, nm_rotmat o)) (reload_NeighMoving nm_witness_rotation)
-  = Some (false, nm_rotmat nm_witness_rotation).
-Proof. vm_compute. reflexivity. Qed.
 
 (* ------------------------------------------------------------------ Table *)
 Definition wf_Table (o : table) : Prop :=
@@ -189,33 +181,28 @@ Proof.
 Qed.
 
 (* ------------------------------------------------------------------ AnamHermite *)
-(* point-support anamorphoses only (r >= 1 or undefined): with r < 1 the coefficients come back multiplied by r^i *)
+(* point or block support (any r) *)
 Definition wf_AnamHermite (o : anam_hermite) : Prop :=
   wf_dbl (ah_azmin o) /\ wf_dbl (ah_azmax o) /\ wf_dbl (ah_aymin o) /\ wf_dbl (ah_aymax o) /\
   wf_dbl (ah_pzmin o) /\ wf_dbl (ah_pzmax o) /\ wf_dbl (ah_pymin o) /\ wf_dbl (ah_pymax o) /\
   wf_dbl (ah_mean o) /\ wf_dbl (ah_variance o) /\ wf_dbl (ah_rcoef o) /\ Forall wf_dbl (ah_psi o) /\
-  ah_psi o <> [] /\ csd (ah_rcoef o) = false /\
+  ah_psi o <> [] /\
   ah_mean o = hd d0 (ah_psi o) /\ ah_variance o = hermite_variance (ah_rcoef o) (ah_psi o).
 
 Lemma AnamHermite_reads o : wf_AnamHermite o -> reads deser_AnamHermite (ser_AnamHermite o) o.
 Proof.
   destruct o as [a1 a2 a3 a4 p1 p2 p3 p4 m v r psi]. unfold wf_AnamHermite. cbn -[hermite_variance csd].
-  intros (H1 & H2 & H3 & H4 & H5 & H6 & H7 & H8 & H9 & H10 & H11 & H12 & Hne & Hcsd & Hm & Hv).
+  intros (H1 & H2 & H3 & H4 & H5 & H6 & H7 & H8 & H9 & H10 & H11 & H12 & Hne & Hm & Hv).
   unfold deser_AnamHermite, ser_AnamHermite. cbn -[hermite_variance csd psi_eff]. rd.
-  unfold psi_eff at 1. rewrite Hcsd.
   eapply reads_bind_cons; [apply reads_vdbl; auto|]. apply reads_ret_eq. subst m v. reflexivity.
 Qed.
 
-(* block support: r = 1/2, raw coefficients (1, 2, 4): the file holds (1, 1, 1), which come back as raw coefficients *)
+(* regression witness of the former defect (block support: coefficients written multiplied by r^i) *)
 Definition ah_witness : anam_hermite :=
   {| ah_azmin := None; ah_azmax := None; ah_aymin := None; ah_aymax := None;
      ah_pzmin := None; ah_pzmax := None; ah_pymin := None; ah_pymax := None;
      ah_mean := Some 1%Q; ah_variance := Some 2%Q; ah_rcoef := Some (1#2)%Q;
      ah_psi := [Some 1%Q; Some 2%Q; Some 4%Q] |}.
-Lemma AnamHermite_witness :
-  option_map ah_psi (nf_read "AnamHermite" deser_AnamHermite (lex (print (nf_write "AnamHermite" (ser_AnamHermite ah_witness)))))
-  = Some [Some 1%Q; Some 1%Q; Some 1%Q].
-Proof. vm_compute. reflexivity. Qed.
 
 (* ------------------------------------------------------------------ printed records are lexically well formed *)
 Lemma good_r_int t z : good_title (W t) = true -> good_rec (r_int t z) = true.
